@@ -659,3 +659,11 @@ func TestVerifC09ParanoidTermination(t *testing.T) {
 		t.Fatalf("INFRA: most stored single-value seeds are stale")
 	}
 }
+
+// FuzzVerifC09EndToEnd: the end-to-end shaping property under the native fuzzer (thorough).
+func FuzzVerifC09EndToEnd(f *testing.F) {
+	vfSetup(f)
+	c := ev.For("C09")
+	c.Rule("fuzz-end-to-end: the end-to-end property driven by the native coverage-guided fuzzer through rapid.MakeFuzz (thorough tier)")
+	f.Fuzz(rapid.MakeFuzz(func(rt *rapid.T) { vfC09Case(rt, c) }))
+}
